@@ -42,31 +42,36 @@ func runC18(c *eng.Ctx, thorough bool) {
 	// ---- C18.1 the wrapping token literal
 	if f := c.Fn("vault.(*Core).wrapInCubbyhole"); f != nil {
 		c.Clause("R12", "C18.1")
-		ct := eng.Calls(f, `vault\.\(\*Core\)\.CreateToken$`)
+		ct := c18Calls(f, `vault\.\(\*Core\)\.CreateToken$`)
+		// the entry handed to CreateToken (followed out of a closure / helper the call may sit in)
+		var created ssa.Value
+		if len(ct) > 0 {
+			created, _ = c18Val(ct[0].Effs[0].Call.Args[2], ct[0].Effs[0].Fr)
+		}
 		if c.Floor(f, "CreateToken call", len(ct), 1) {
-			te := ct[0].Common().Args[2]
+			te := created
 			want := map[string]string{"NumUses": `^const:1$`, "TTL": `^field:resp\.WrapInfo\.TTL$`, "ExplicitMaxTTL": `^field:resp\.WrapInfo\.TTL$`}
 			for fld, pat := range want {
 				vals := eng.StructLitField(te, fld)
 				if len(vals) == 0 {
-					c.Violation(f, "wrapping token "+fld, ct[0].Pos(), "the wrapping token literal does not set "+fld, nil)
+					c.Violation(f, "wrapping token "+fld, ct[0].At.Pos(), "the wrapping token literal does not set "+fld, nil)
 				}
 				for _, v := range vals {
-					c.Prov(f, "wrapping token "+fld, ct[0], v, pat)
+					c18Prov(c, f, "wrapping token "+fld, ct[0].At, v, nil, pat)
 				}
 			}
 			// policies: a one-element slice literal holding the response-wrapping policy
 			pols := eng.StructLitField(te, "Policies")
 			if len(pols) == 0 {
-				c.Violation(f, "wrapping token Policies", ct[0].Pos(), "the wrapping token literal does not set Policies", nil)
+				c.Violation(f, "wrapping token Policies", ct[0].At.Pos(), "the wrapping token literal does not set Policies", nil)
 			}
 			for _, pv := range pols {
 				s := eng.ExprDeep(pv)
 				elems := sliceLitElems(pv)
 				if len(elems) == 1 && elems[0] == `"response-wrapping"` {
-					c.OK(f, "wrapping token Policies", ct[0].Pos(), `Policies = ["response-wrapping"]`)
+					c.OK(f, "wrapping token Policies", ct[0].At.Pos(), `Policies = ["response-wrapping"]`)
 				} else {
-					c.Violation(f, "wrapping token Policies", ct[0].Pos(), "the wrapping token's policies are not exactly [\"response-wrapping\"]: "+s+" "+strings.Join(elems, ","), nil)
+					c.Violation(f, "wrapping token Policies", ct[0].At.Pos(), "the wrapping token's policies are not exactly [\"response-wrapping\"]: "+s+" "+strings.Join(elems, ","), nil)
 				}
 			}
 			// no later store widens the token before creation
@@ -88,11 +93,12 @@ func runC18(c *eng.Ctx, thorough bool) {
 		// the cubbyhole requests are issued as the new token
 		c.Clause("R5", "C18.1")
 		n := 0
-		for _, r := range eng.Calls(f, `routing\.\(\*Router\)\.Route$`) {
-			req := r.Common().Args[2]
-			for _, v := range eng.StructLitField(req, "ClientToken") {
-				n++
-				c.Prov(f, "cubbyhole request ClientToken", r, v, `^field:&te\.ID$`)
+		for _, r := range c18Calls(f, `routing\.\(\*Router\)\.Route$`) {
+			for _, e := range r.Effs {
+				for _, v := range c18LitField(e.Call.Args[2], e.Fr, "ClientToken") {
+					n++
+					c18Prov(c, f, "cubbyhole request ClientToken", r.At, v.V, v.Fr, `^field:&te\.ID$`)
+				}
 			}
 		}
 		c.Floor(f, "cubbyhole requests carrying the wrapping token", n, 1)
@@ -104,25 +110,26 @@ func runC18(c *eng.Ctx, thorough bool) {
 			c.Prov(f, "resp.WrapInfo.CreationPath", st, st.Val, `^field:req\.Path$`)
 		}
 		// the lease of the wrapping token is not renewable and bounded by its TTL
-		ras := eng.Calls(f, `vault\.\(\*ExpirationManager\)\.RegisterAuth$`)
+		var ras []nfEff
+		for _, s := range c18Calls(f, `vault\.\(\*ExpirationManager\)\.RegisterAuth$`) {
+			ras = append(ras, s.Effs...)
+		}
 		c.Floor(f, "RegisterAuth of the wrapping token", len(ras), 1)
-		for _, ra := range ras {
-			auth := ra.Common().Args[3]
-			for _, v := range eng.StructLitField(auth, "ClientToken") {
-				c.Prov(f, "lease registered for the wrapping token", ra, v, `^field:&te\.ID$`)
+		for _, rae := range ras {
+			ra := rae.Call.In
+			auth, afr := c18Val(rae.Call.Args[3], rae.Fr)
+			registered, _ := c18Val(rae.Call.Args[2], rae.Fr)
+			for _, v := range c18LitField(rae.Call.Args[3], rae.Fr, "ClientToken") {
+				c18Prov(c, f, "lease registered for the wrapping token", ra, v.V, v.Fr, `^field:&te\.ID$`)
 			}
 			// the token expires through this lease: its TTL is the wrapping token's own TTL (the wrap
 			// TTL pinned above), read from the very entry handed to CreateToken, and it cannot be renewed
-			var created ssa.Value
-			if len(ct) > 0 {
-				created = ct[0].Common().Args[2]
-			}
 			nTTL := 0
 			for _, lo := range c18NestedLit(auth, "LeaseOptions") {
 				for _, v := range eng.StructLitField(lo, "TTL") {
 					nTTL++
 					site := "lease TTL of the wrapping token"
-					if base, ok := c18FieldLoad(v, "TTL"); ok && created != nil && base == created && ra.Common().Args[2] == created {
+					if base, ok := c18FieldLoad(v, "TTL"); ok && created != nil && base == created && registered == created {
 						c.OK(f, site, ra.Pos(), "LeaseOptions.TTL = TTL of the token entry created and registered ("+eng.Expr(v)+")")
 					} else {
 						c.Violation(f, site, ra.Pos(), "the lease registered for the wrapping token runs for "+eng.ExprDeep(v)+", not for the TTL field of the token entry handed to CreateToken/RegisterAuth: the token (and its payload) would outlive the wrap TTL", nil)
@@ -130,7 +137,7 @@ func runC18(c *eng.Ctx, thorough bool) {
 				}
 				// (an unset Renewable is the zero value false)
 				for _, v := range eng.StructLitField(lo, "Renewable") {
-					c.Prov(f, "lease of the wrapping token not renewable", ra, v, `^const:false$`)
+					c18Prov(c, f, "lease of the wrapping token not renewable", ra, v, afr, `^const:false$`)
 				}
 			}
 			c.Floor(f, "LeaseOptions.TTL of the wrapping token's lease", nTTL, 1)
@@ -140,8 +147,13 @@ func runC18(c *eng.Ctx, thorough bool) {
 	// ---- C18.2 the requester only gets the wrap info
 	if f := c.Fn("vault.(*Core).handleCancelableRequest"); f != nil {
 		c.Clause("R5", "C18.2")
-		wc := eng.Calls(f, `vault\.\(\*Core\)\.wrapInCubbyhole$`)
-		if c.Floor(f, "wrapInCubbyhole call", len(wc), 1) {
+		wcs := c18Plain(c18Calls(f, `vault\.\(\*Core\)\.wrapInCubbyhole$`))
+		if c.Floor(f, "wrapInCubbyhole call", len(wcs), 1) && !wcs[0].Self() {
+			// wrapInCubbyhole runs inside a closure / helper: which of its results is the wrap response is not followed
+			c.Undecided(f, "response returned after wrapping", wcs[0].At.Pos(), "wrapInCubbyhole is not called by handleCancelableRequest itself (moved into "+eng.CalleeName(wcs[0].At.(ssa.CallInstruction).Common())+"?): the rule cannot be evaluated")
+		} else if len(wcs) > 0 {
+			wc := []ssa.CallInstruction{wcs[0].At.(ssa.CallInstruction)}
+			wrapResp := eng.ResultValue(wc[0], 0)
 			fe := eng.FeasibleAfter(wc[0])
 			nRet := 0
 			for _, r := range eng.ReturnsFrom(f, nil, wc[0], nil) {
@@ -158,7 +170,7 @@ func runC18(c *eng.Ctx, thorough bool) {
 						rs = append(rs, s)
 						switch {
 						case eng.IsNilConst(root):
-						case s == "vault.(*Core).wrapInCubbyhole()#0":
+						case wrapResp != nil && root == wrapResp:
 						case isAllocOf(root, "logical.Response"):
 						default:
 							bad = s
@@ -201,20 +213,21 @@ func runC18(c *eng.Ctx, thorough bool) {
 		}
 		// ---- C18.3 validation before the handlers on the three wrapping paths
 		c.Clause("R2", "C18.3")
-		handlers := instrsOf(eng.Calls(f, `vault\.\(\*Core\)\.(handleRequest|handleLoginRequest)$`))
+		handlers := c18Ats(c18Plain(c18Calls(f, `vault\.\(\*Core\)\.(handleRequest|handleLoginRequest)$`)))
 		// the guard is the verdict of validateWrappingToken, whichever way the call is
 		// written (c.validateWrappingToken(...) or through its method value): the
 		// branches on the call's own results
 		gValid := eng.Guard{Desc: "[^vault\\.\\(\\*Core\\)\\.validateWrappingToken\\(\\)#0$]=true"}
 		gNoErr := eng.Guard{Desc: "[^vault\\.\\(\\*Core\\)\\.validateWrappingToken\\(\\)#1 == nil$]=true"}
-		for _, v := range c18CallsOf(f, c.P.Func("vault.(*Core).validateWrappingToken")) {
-			if v.Deferred {
-				continue
+		for _, v := range c18Plain(c18Calls(f, `^vault\.\(\*Core\)\.validateWrappingToken$`)) {
+			if !v.Self() {
+				continue // a wrapper's results are not known to be the verdict
 			}
-			if r0 := eng.ResultValue(v.Call, 0); r0 != nil {
+			call := v.At.(ssa.CallInstruction)
+			if r0 := eng.ResultValue(call, 0); r0 != nil {
 				gValid.Edges = append(gValid.Edges, eng.BoolEdges(r0, true)...)
 			}
-			gNoErr.Edges = append(gNoErr.Edges, eng.CallOKEdgesDirect(v.Call)...)
+			gNoErr.Edges = append(gNoErr.Edges, eng.CallOKEdgesDirect(call)...)
 		}
 		for _, p := range []string{"sys/wrapping/lookup", "sys/wrapping/rewrap", "sys/wrapping/unwrap"} {
 			asm := map[string]bool{`^req\.Path == "` + p + `"$`: true, `^strings\.HasPrefix\(\)$`: true}
@@ -246,14 +259,16 @@ func runC18(c *eng.Ctx, thorough bool) {
 			}
 		}
 		if c.Floor(f, "returns that may report valid", len(trueRets), 1) {
-			c.Cut(f, "valid = true", trueRets, eng.GCallOK(f, `vault\.\(\*TokenStore\)\.Lookup$`), nil)
+			c.Cut(f, "valid = true", trueRets, c18GCallOK(f, `vault\.\(\*TokenStore\)\.Lookup$`), nil)
 			c.Cut(f, "valid = true", trueRets, c18G(f, `^vault\.\(\*TokenStore\)\.Lookup\(\)#0 == nil$`, false), nil)
 			c.Cut(f, "valid = true", trueRets, c18G(f, `^vault\.IsWrappingToken\(\)$`, true), nil)
 			c.Cut(f, "valid = true", trueRets, c18G(f, `^vault\.\(\*Core\)\.Sealed\(\)$`, false), nil)
 		}
 		c.Clause("R5", "C18.3")
-		for _, w := range eng.Calls(f, `^vault\.IsWrappingToken$`) {
-			c.Prov(f, "token checked by IsWrappingToken", w, w.Common().Args[0], `^call:vault\.\(\*TokenStore\)\.Lookup#0$`)
+		for _, w := range c18Calls(f, `^vault\.IsWrappingToken$`) {
+			for _, e := range w.Effs {
+				c18Prov(c, f, "token checked by IsWrappingToken", w.At, e.Call.Args[0], e.Fr, `^call:vault\.\(\*TokenStore\)\.Lookup#0$`)
+			}
 		}
 	}
 	if f := c.Fn("vault.IsWrappingToken"); f != nil {
@@ -264,8 +279,8 @@ func runC18(c *eng.Ctx, thorough bool) {
 				trueRets = append(trueRets, r)
 			}
 		}
-		c.Cut(f, "IsWrappingToken = true", trueRets, eng.G(f, `^len\(te\.Policies\) == 1$`, true), nil)
-		c.Cut(f, "IsWrappingToken = true", trueRets, eng.G(f, `^te\.Policies\[0\] == "response-wrapping"$`, true), nil)
+		c.Cut(f, "IsWrappingToken = true", trueRets, c18G(f, `^len\(te\.Policies\) == 1$`, true), nil)
+		c.Cut(f, "IsWrappingToken = true", trueRets, c18G(f, `^te\.Policies\[0\] == "response-wrapping"$`, true), nil)
 	}
 	// third-party unwrap / rewrap
 	for _, fn := range []string{"vault.(*SystemBackend).responseWrappingUnwrap", "vault.(*SystemBackend).handleWrappingRewrap"} {
@@ -276,17 +291,17 @@ func runC18(c *eng.Ctx, thorough bool) {
 		c.Clause("R2", "C18.3")
 		// sites are selected by their resolved callee: written directly, called
 		// through a method value, or (the revocation) inside a deferred closure
-		routeSites := c18CallsOf(f, c.P.Func("routing.(*Router).Route"))
-		route := c18SiteInstrs(routeSites)
+		routeSites := c18Plain(c18Calls(f, `routing\.\(\*Router\)\.Route$`))
+		route := c18Ats(routeSites)
 		if !c.Floor(f, "cubbyhole read", len(route), 1) {
 			continue
 		}
-		use := eng.GCallOK(f, `vault\.\(\*TokenStore\)\.UseTokenByID$`)
-		c.Cut(f, "cubbyhole read", route, eng.Or(eng.Guard{Desc: use.Desc, Edges: use.Edges}, eng.G(f, `^φ?thirdParty(\{.*\})?$`, false)), nil)
+		use := c18GCallOK(f, `vault\.\(\*TokenStore\)\.UseTokenByID$`)
+		c.Cut(f, "cubbyhole read", route, eng.Or(eng.Guard{Desc: use.Desc, Edges: use.Edges}, c18G(f, `^φ?thirdParty(\{.*\})?$`, false)), nil)
 		// the revocation is armed for a third-party call
 		var defers []ssa.Instruction
-		for _, d := range c18CallsOf(f, c.P.Func("vault.(*TokenStore).revokeOrphan")) {
-			if d.Deferred {
+		for _, d := range c18Calls(f, `vault\.\(\*TokenStore\)\.revokeOrphan$`) {
+			if d.Kind == "defer" {
 				defers = append(defers, d.At)
 			}
 		}
@@ -302,9 +317,10 @@ func runC18(c *eng.Ctx, thorough bool) {
 		}
 		c.Clause("R5", "C18.3")
 		for _, r := range routeSites {
-			req := r.Args[2]
-			for _, v := range eng.StructLitField(req, "ClientToken") {
-				c.Prov(f, "cubbyhole read as the wrapping token", r.At, v, `^field:te\.ID$`, `^param:`, `^field:req\.ClientToken$`, `framework\.\(\*FieldData\)\.Get`)
+			for _, e := range r.Effs {
+				for _, v := range c18LitField(e.Call.Args[2], e.Fr, "ClientToken") {
+					c18Prov(c, f, "cubbyhole read as the wrapping token", r.At, v.V, v.Fr, `^field:te\.ID$`, `^param:`, `^field:req\.ClientToken$`, `framework\.\(\*FieldData\)\.Get`)
+				}
 			}
 		}
 	}
@@ -323,6 +339,7 @@ func runC18(c *eng.Ctx, thorough bool) {
 	if f := c.Fn("vault.(*SystemBackend).handleWrappingLookup"); f != nil {
 		c.Clause("R5", "C18.5")
 		found := false
+		routes := c18Plain(c18Calls(f, `routing\.\(\*Router\)\.Route$`))
 		for _, b := range f.Blocks {
 			for _, in := range b.Instrs {
 				mu, ok := in.(*ssa.MapUpdate)
@@ -331,9 +348,21 @@ func runC18(c *eng.Ctx, thorough bool) {
 				}
 				found = true
 				s := eng.ExprDeep(mu.Value)
-				if strings.Contains(s, `Route(`) && strings.Contains(s, `"creation_path"`) {
+				// the value is <response of a cubbyhole read>.Data["creation_path"]: the map read is
+				// identified structurally, the response by the resolved Route site it is result 0 of
+				src, keyed := c18MapRead(mu.Value, `"creation_path"`)
+				fromRoute := false
+				if keyed {
+					if base, isData := c18FieldLoad(src, "Data"); isData {
+						fromRoute = c18ResultOfSites(base, routes, 0)
+					}
+				}
+				switch {
+				case fromRoute, strings.Contains(s, `Route(`) && strings.Contains(s, `"creation_path"`):
 					c.OK(f, "creation_path reported", in.Pos(), "read from the cubbyhole wrap info: "+s)
-				} else {
+				case keyed:
+					c.Undecided(f, "creation_path reported", in.Pos(), "creation_path is read out of a map that could not be traced to the response of a cubbyhole read ("+s+"): the rule cannot be evaluated")
+				default:
 					c.Violation(f, "creation_path reported", in.Pos(), "creation_path in the lookup response does not come from the stored wrap info: "+s, nil)
 				}
 			}
@@ -389,13 +418,14 @@ func c18FieldLoad(v ssa.Value, name string) (ssa.Value, bool) {
 func c18ThirdPartyFlag(c *eng.Ctx, f *ssa.Function) {
 	c.Clause("R5", "C18.3")
 	site := "thirdParty = (wrapping token named in the request body)"
-	lt := eng.Calls(f, `vault\.\(\*TokenStore\)\.lookupTainted$`)
+	lt := c18Calls(f, `vault\.\(\*TokenStore\)\.lookupTainted$`)
 	if !c.Floor(f, "lookupTainted of the wrapping token", len(lt), 1) {
 		return
 	}
-	tok, ok := lt[0].Common().Args[2].(*ssa.Phi)
-	if !ok {
-		c.Undecided(f, site, lt[0].Pos(), "the token looked up is "+eng.ExprDeep(lt[0].Common().Args[2])+", not a merge of the body token and the caller's token")
+	looked, _ := c18Val(lt[0].Effs[0].Call.Args[2], lt[0].Effs[0].Fr)
+	tok, ok := looked.(*ssa.Phi)
+	if !ok || tok.Parent() != f {
+		c.Undecided(f, site, lt[0].At.Pos(), "the token looked up is "+eng.ExprDeep(looked)+", not a merge of the body token and the caller's token")
 		return
 	}
 	// the flag is decided where the token is chosen: the boolean merged at the same point
@@ -414,13 +444,16 @@ func c18ThirdPartyFlag(c *eng.Ctx, f *ssa.Function) {
 	flag := flags[0]
 	// ... and it is the flag that is acted on
 	used := 0
-	for _, cl := range eng.Calls(f, `vault\.\(\*SystemBackend\)\.responseWrappingUnwrap$`) {
-		a := cl.Common().Args
-		if a[len(a)-1] == ssa.Value(flag) {
-			used++
-		} else {
-			c.Violation(f, site, cl.Pos(), "responseWrappingUnwrap is told thirdParty = "+eng.ExprDeep(a[len(a)-1])+", not the flag decided with the choice of the token", nil)
-			return
+	for _, cl := range c18Calls(f, `vault\.\(\*SystemBackend\)\.responseWrappingUnwrap$`) {
+		for _, e := range cl.Effs {
+			a := e.Call.Args
+			told, _ := c18Val(a[len(a)-1], e.Fr)
+			if told == ssa.Value(flag) {
+				used++
+			} else {
+				c.Violation(f, site, cl.At.Pos(), "responseWrappingUnwrap is told thirdParty = "+eng.ExprDeep(told)+", not the flag decided with the choice of the token", nil)
+				return
+			}
 		}
 	}
 	for _, b := range f.Blocks {
@@ -436,7 +469,7 @@ func c18ThirdPartyFlag(c *eng.Ctx, f *ssa.Function) {
 	for i, e := range tok.Edges {
 		fromBody := false
 		for _, o := range eng.Origins(e) {
-			if o.Kind == "call" && strings.Contains(o.Desc, "framework.(*FieldData).Get") {
+			if o.Kind == "call" && strings.Contains(c18Unbound(o.Desc), "framework.(*FieldData).Get") {
 				fromBody = true
 			}
 		}
@@ -491,38 +524,25 @@ func sliceLitElems(v ssa.Value) []string {
 func c18Namespace(c *eng.Ctx) {
 	if f := c.Fn("vault.(*SystemBackend).handleWrappingUnwrap"); f != nil {
 		c.Clause("R5", "C18.3")
-		calls := eng.Calls(f, `^vault\.\(\*SystemBackend\)\.responseWrappingUnwrap$`)
+		calls := c18Calls(f, `^vault\.\(\*SystemBackend\)\.responseWrappingUnwrap$`)
 		if c.Floor(f, "responseWrappingUnwrap call", len(calls), 1) {
 			for _, cl := range calls {
-				ctxArg := cl.Common().Args[1]
-				ok := c.Prov(f, "unwrap runs in the wrapping token's namespace", cl, ctxArg, `^call:namespace\.ContextWithNamespace$`)
-				if ok {
-					for _, o := range eng.Origins(ctxArg) {
-						if cw, isCall := o.Val.(*ssa.Call); isCall {
-							c.Prov(f, "namespace the unwrap context is switched to", cw, cw.Call.Args[1], `^call:vault\.\(\*Core\)\.NamespaceByID#0$`)
-						}
-					}
+				for _, e := range cl.Effs {
+					c18SwitchedCtx(c, f, "unwrap runs in the wrapping token's namespace", "namespace the unwrap context is switched to", cl.At, e.Call.Args[1], e.Fr, nil)
 				}
 			}
-			for _, nb := range eng.Calls(f, `^vault\.\(\*Core\)\.NamespaceByID$`) {
-				a := nb.Common().Args
-				s := eng.Expr(a[len(a)-1])
-				if strings.HasSuffix(s, ".NamespaceID") && strings.Contains(s, "lookupTainted()#0") {
-					c.OK(f, "namespace looked up = the wrapping token's", nb.Pos(), s)
-				} else {
-					c.Violation(f, "namespace looked up = the wrapping token's", nb.Pos(), "NamespaceByID("+s+")", nil)
-				}
-			}
+			c18NamespaceLookedUp(c, f)
 		}
 	}
 	if f := c.Fn("vault.(*SystemBackend).responseWrappingUnwrap"); f != nil {
 		c.Clause("R5", "C18.3")
 		n := 0
-		for _, short := range []string{"vault.(*TokenStore).UseTokenByID", "vault.(*TokenStore).revokeOrphan", "routing.(*Router).Route"} {
-			target := c.P.Func(short)
-			for _, cl := range c18CallsOf(f, target) {
+		for _, pat := range []string{`^vault\.\(\*TokenStore\)\.UseTokenByID$`, `^vault\.\(\*TokenStore\)\.revokeOrphan$`, `^routing\.\(\*Router\)\.Route$`} {
+			for _, cl := range c18Calls(f, pat) {
 				n++
-				c.Prov(f, "context of "+eng.FuncName(target)+" = the unwrap context", cl.At, cl.Args[1], `^param:ctx$`)
+				for _, e := range cl.Effs {
+					c18Prov(c, f, "context of "+e.Call.Name+" = the unwrap context", cl.At, e.Call.Args[1], e.Fr, `^param:ctx$`)
+				}
 			}
 		}
 		c.Floor(f, "namespace-sensitive steps of the unwrap", n, 3)
